@@ -351,6 +351,10 @@ func c12(c *core.Ctx) {
 			c.Sample(map[string]interface{}{"section": "many-in-flight", "transactions": n, "fallback_handler": i%2 == 0})
 		}
 	})
+	c.Section("response-during-close", 4, func(i int64, _ *gen.Rand) {
+		targetedResponseDuringClose(c, int(i))
+		c.Distinct(uint64(i) | 25<<50)
+	})
 	c.Section("idle-read-errors", 4, func(i int64, _ *gen.Rand) {
 		targetedIdleReadErrors(c, []int{3, 999, 1000, 2500}[i])
 		c.Distinct(uint64(i) | 21<<50)
